@@ -61,7 +61,13 @@ def run(run, scr, tier, seed, only=None):
                 run.inconclusive.append(f'{fn}: not a plain delegation: {det}')
     except (e2.Refuse, vlib.BuildError) as ex:
         run.inconclusive.append('E2 part of C12 refused: ' + str(ex)[:300])
-    results = vlib.run_kani(scr, hs, jobs=6)
+    build_failed = None
+    try:
+        results = vlib.run_kani(scr, hs, jobs=6)
+    except vlib.BuildError as ex:
+        results = []; build_failed = str(ex)[-400:].replace('\n', ' ')
+        run.add_query({'name': 'Kani harness module builds against this tree', 'engine': 'rustc (Kani build)', 'verdict': 'unknown', 'detail': build_failed}, core=False)
+        run.inconclusive.append('Kani harness module does not build on this tree (changed internal signature?): ' + build_failed[-200:])
     partials = set()
     for r in results:
         if r.status == 'failed':
@@ -72,13 +78,13 @@ def run(run, scr, tier, seed, only=None):
             r.detail = 'C12 assertions failed: ' + '; '.join(d for _, d, _ in own)[:300]
     run.add_kani_results(results)
     failed = [r for r in results if r.status == 'failed']
-    if failed:
+    if failed or build_failed:
         ps = [0, 1, 16, 31, 32]
         res, msgs = native(scr, ps)
         path = vlib.save_replay('C12', 'rng', {'property': 'C12', 'kind': 'rng', 'partials': ps, 'native': res, 'failed': [r.detail for r in failed]})
         if 'fail' in res.values():
             run.violation('rng-discipline', f'RNG discipline: {msgs[:4]} ; harness: {[r.detail for r in failed][:2]} native={res}', path)
-        else:
+        elif failed:
             run.inconclusive.append(f'C12 harness failures did not reproduce natively: {[r.detail for r in failed][:2]} native={res} {msgs[:2]}')
     run.samples = [{'harness': r.h.name, 'verdict': r.status, 'covers': r.covers[:5]} for r in results[:6]]
     return run.finish(
